@@ -1,3 +1,224 @@
-import IncanModel.Kernel.Seq
+import IncanModel.Lemmas.Seq
+/-
+C05 — Indexing, slicing and range follow Python for every argument.
+
+Reference semantics (unbounded integers): `pyIndices` is CPython's slice arithmetic
+(`PySlice_AdjustIndices` + "i, i+k, i+2k, … until the bound is reached"), `pyRange` is Python's `range`.
+The theorems hold for **all** `Int64` start/end/step values and all lists shorter than 2^63.
+-/
 namespace Incan.Seq
+open Incan.Num (pos_iff neg_iff eq_zero_iff)
+
+/-- Python: the indices selected by `xs[start:stop:step]` on a sequence of length `len`. -/
+def pyIndices (len : Nat) (start stop : Option Int) (step : Int) : List Int :=
+  let L : Int := len
+  if step > 0 then
+    let i := adjIdx L step start 0
+    let j := adjIdx L step stop L
+    upIdx i j step (j - i).toNat
+  else
+    let i := adjIdx L step start (L - 1)
+    let j := adjIdx L step stop (-1)
+    downIdx i j step (i - j).toNat
+
+/-- Python: `xs[start:stop:step]`. -/
+def pySlice (xs : List α) (start stop : Option Int) (step : Int) : List α :=
+  (pyIndices xs.length start stop step).filterMap (getInt xs)
+
+/-- Python: `list(range(a, b, c))`. -/
+def pyRange (a b c : Int) : List Int :=
+  if c > 0 then upIdx a b c (b - a).toNat else downIdx a b c (a - b).toNat
+
+/-- Every selected index is a valid position: no element is skipped and none is out of range. -/
+theorem pyIndices_in_range (len : Nat) (start stop : Option Int) (step : Int) (hstep : step ≠ 0)
+    (k : Int) (hk : k ∈ pyIndices len start stop step) : 0 ≤ k ∧ k < len := by
+  unfold pyIndices at hk
+  simp only at hk
+  by_cases hs : step > 0
+  · rw [if_pos hs] at hk
+    have h1 := adjIdx_range_up len step (by omega) hs start 0 (by omega)
+    have h2 := adjIdx_range_up len step (by omega) hs stop len (by omega)
+    have := upIdx_mem _ _ _ hs _ k hk
+    omega
+  · rw [if_neg hs] at hk
+    have h1 := adjIdx_range_down len step (by omega) hs start (len - 1) (by omega)
+    have h2 := adjIdx_range_down len step (by omega) hs stop (-1) (by omega)
+    have := downIdx_mem _ _ _ (by omega) _ k hk
+    omega
+
+/-- `list_slice` returns exactly Python's slice, for all i64 start/end/step (including MIN/MAX). -/
+theorem listSlice_eq_python (xs : List α) (hlen : xs.length < 2^63) (start stop step : Option Int64)
+    (hstep : step.getD 1 ≠ 0) :
+    listSlice xs start stop step =
+      .ok (pySlice xs (start.map Int64.toInt) (stop.map Int64.toInt) (step.getD 1).toInt) := by
+  have hL := lenI64_toInt xs hlen
+  have hl0 : 0 ≤ (lenI64 xs).toInt := by omega
+  unfold listSlice
+  simp only [hstep, if_false]
+  have hb1 := startBound_toInt (lenI64 xs) (step.getD 1) hl0 start
+  have hb2 := endBound_toInt (lenI64 xs) (step.getD 1) hl0 stop
+  rw [sliceBounds_eq]
+  generalize startBound (lenI64 xs) start (step.getD 1) = s at hb1
+  generalize endBound (lenI64 xs) stop (step.getD 1) = e at hb2
+  simp only
+  rw [hL] at hb1 hb2
+  unfold pySlice pyIndices
+  simp only
+  by_cases hs : step.getD 1 > 0
+  · have hs' := (pos_iff _).1 hs
+    rw [if_pos hs, if_pos hs']
+    rw [if_pos hs'] at hb1 hb2
+    rw [loopUp_eq xs e _ hs' _ s s.toInt (Or.inl rfl), hb1, hb2]
+    congr 2
+    have h1 := adjIdx_range_up xs.length (step.getD 1).toInt (by omega) hs' (start.map Int64.toInt) 0 (by omega)
+    have h2 := adjIdx_range_up xs.length (step.getD 1).toInt (by omega) hs' (stop.map Int64.toInt) xs.length (by omega)
+    apply upIdx_fuel _ _ _ hs' <;> omega
+  · have hs' : ¬ (step.getD 1).toInt > 0 := fun h => hs ((pos_iff _).2 h)
+    have hneg : (step.getD 1).toInt < 0 := by
+      have : (step.getD 1).toInt ≠ 0 := fun h => hstep ((eq_zero_iff _).2 h)
+      omega
+    rw [if_neg hs, if_neg hs']
+    rw [if_neg hs'] at hb1 hb2
+    rw [loopDown_eq xs e _ hneg _ s s.toInt (Or.inl rfl), hb1, hb2]
+    congr 2
+    have h1 := adjIdx_range_down xs.length (step.getD 1).toInt (by omega) hs' (start.map Int64.toInt) (xs.length - 1) (by omega)
+    have h2 := adjIdx_range_down xs.length (step.getD 1).toInt (by omega) hs' (stop.map Int64.toInt) (-1) (by omega)
+    apply downIdx_fuel _ _ _ hneg <;> omega
+
+/-- The two copies of the slice code (strings in `incan_core`, lists in `incan_stdlib`) agree. -/
+theorem strSlice_eq_listSlice (s : List Char) (start stop step : Option Int64) :
+    strSlice s start stop step = listSlice s start stop step := rfl
+
+theorem strSlice_eq_python (s : List Char) (hlen : s.length < 2^63) (start stop step : Option Int64)
+    (hstep : step.getD 1 ≠ 0) :
+    strSlice s start stop step =
+      .ok (pySlice s (start.map Int64.toInt) (stop.map Int64.toInt) (step.getD 1).toInt) := by
+  rw [strSlice_eq_listSlice]; exact listSlice_eq_python s hlen start stop step hstep
+
+/-- A zero step is always the documented `ValueError`, never anything else. -/
+theorem slice_step_zero (xs : List α) (start stop : Option Int64) :
+    listSlice xs start stop (some 0) = .error .sliceStepZero ∧
+    Err.sliceStepZero.message = "ValueError: slice step cannot be zero" := by
+  constructor
+  · simp [listSlice]
+  · rfl
+
+/-- `range(a, b, c)` yields exactly Python's `range(a, b, c)` and the iterator terminates after at
+most `|b - a|` items — for **all** i64 triples with `c ≠ 0` (no overflow hypothesis). -/
+theorem range_eq_python (a b c : Int64) (hc : c ≠ 0) (fuel : Nat)
+    (hfuel : (if c > 0 then (b.toInt - a.toInt).toNat else (a.toInt - b.toInt).toNat) ≤ fuel) :
+    ∃ r, range a b c = .ok r ∧
+      (r.collect fuel).1.map Int64.toInt = pyRange a.toInt b.toInt c.toInt ∧
+      (r.collect fuel).2 = true := by
+  refine ⟨{ cur := a, stop := b, step := c }, by simp [range, hc], ?_⟩
+  unfold pyRange
+  by_cases hs : c > 0
+  · have hs' := (pos_iff c).1 hs
+    rw [if_pos hs] at hfuel
+    rw [if_pos hs']
+    have := collect_up b c hs fuel a a.toInt (Or.inl rfl)
+    refine ⟨?_, this.2 hfuel⟩
+    rw [this.1]
+    exact upIdx_fuel _ _ _ hs' _ _ hfuel (Nat.le_refl _)
+  · have hs' : ¬ c.toInt > 0 := fun h => hs ((pos_iff c).2 h)
+    have hneg : c.toInt < 0 := by
+      have : c.toInt ≠ 0 := fun h => hc ((eq_zero_iff c).2 h)
+      omega
+    rw [if_neg hs] at hfuel
+    rw [if_neg hs']
+    have := collect_down b c hs hc fuel a a.toInt (Or.inl rfl)
+    refine ⟨?_, this.2 hfuel⟩
+    rw [this.1]
+    exact downIdx_fuel _ _ _ hneg _ _ hfuel (Nat.le_refl _)
+
+theorem range_step_zero (a b : Int64) :
+    range a b 0 = .error .rangeStepZero ∧
+    Err.rangeStepZero.message = "ValueError: range() arg 3 must not be zero" := by
+  constructor
+  · simp [range]
+  · rfl
+
+/-- Python indexing: `xs[i]` with negative indices counted from the end. -/
+def pyIndex (xs : List α) (i : Int) : Option α :=
+  let j := if i < 0 then i + xs.length else i
+  if j < 0 ∨ j ≥ xs.length then none else xs[j.toNat]?
+
+theorem listGet_eq_python (xs : List α) (hlen : xs.length < 2^63) (i : Int64) :
+    listGet xs i = match pyIndex xs i.toInt with
+      | some v => .ok v
+      | none => .error (.listIndexOutOfRange i xs.length) := by
+  have hL := lenI64_toInt xs hlen
+  have hl0 : 0 ≤ (lenI64 xs).toInt := by omega
+  unfold listGet pyIndex
+  simp only
+  by_cases hi : i < 0
+  · have hi' := (neg_iff i).1 hi
+    rw [if_pos hi, if_pos hi']
+    have hadd := addLen_toInt i (lenI64 xs) hi' hl0
+    rw [hL] at hadd
+    by_cases hb : i + lenI64 xs < 0 ∨ i + lenI64 xs ≥ lenI64 xs
+    · rw [if_pos hb]
+      rw [neg_iff, ge_iff, hadd, hL] at hb
+      rw [if_pos hb]
+    · rw [if_neg hb]
+      rw [neg_iff, ge_iff, hadd, hL] at hb
+      rw [if_neg hb, hadd]
+      cases xs[(i.toInt + ↑xs.length).toNat]? <;> rfl
+  · have hi' : ¬ i.toInt < 0 := fun h => hi ((neg_iff i).2 h)
+    rw [if_neg hi, if_neg hi']
+    by_cases hb : i < 0 ∨ i ≥ lenI64 xs
+    · rw [if_pos hb]
+      rw [neg_iff, ge_iff, hL] at hb
+      rw [if_pos hb]
+    · rw [if_neg hb]
+      rw [neg_iff, ge_iff, hL] at hb
+      rw [if_neg hb]
+      cases xs[i.toInt.toNat]? <;> rfl
+
+theorem strIndex_eq_python (s : List Char) (hlen : s.length < 2^63) (i : Int64) :
+    strIndex s i = match pyIndex s i.toInt with
+      | some v => .ok v
+      | none => .error .stringIndexOutOfRange := by
+  unfold strIndex normalizeIndex pyIndex
+  simp only
+  by_cases h0 : s.length = 0
+  · have : s = [] := List.eq_nil_of_length_eq_zero h0
+    subst this
+    simp
+    first | done | (split <;> simp <;> omega)
+  · have hL : (Int64.ofInt (s.length : Int)).toInt = s.length := toInt_ofInt_of_range _ (by omega)
+    have hl0 : 0 ≤ (Int64.ofInt (s.length : Int)).toInt := by omega
+    rw [if_neg h0]
+    by_cases hi : i < 0
+    · have hi' := (neg_iff i).1 hi
+      rw [if_pos hi, if_pos hi']
+      have hadd := addLen_toInt i _ hi' hl0
+      rw [hL] at hadd
+      by_cases hb : i + Int64.ofInt ↑s.length < 0 ∨ i + Int64.ofInt ↑s.length ≥ Int64.ofInt ↑s.length
+      · rw [if_pos hb]
+        rw [neg_iff, ge_iff, hadd, hL] at hb
+        rw [if_pos hb]
+      · rw [if_neg hb]
+        rw [neg_iff, ge_iff, hadd, hL] at hb
+        rw [if_neg hb, hadd]
+        cases h : s[(i.toInt + ↑s.length).toNat]? <;> simp only [h]
+    · have hi' : ¬ i.toInt < 0 := fun h => hi ((neg_iff i).2 h)
+      rw [if_neg hi, if_neg hi']
+      by_cases hb : i < 0 ∨ i ≥ Int64.ofInt ↑s.length
+      · rw [if_pos hb]
+        rw [neg_iff, ge_iff, hL] at hb
+        rw [if_pos hb]
+      · rw [if_neg hb]
+        rw [neg_iff, ge_iff, hL] at hb
+        rw [if_neg hb]
+        cases h : s[i.toInt.toNat]? <;> simp only [h]
+
+/-! Concrete instances (non-vacuity and the overflow witnesses that the `fix:` commit repaired). -/
+example : listSlice [0, 1, 2, 3, 4, 5, 6, 7, 8, 9] (some 5) none (some Int64.maxValue) = .ok [5] := by decide
+example : listSlice [0, 1, 2, 3, 4] none none (some (-1)) = .ok [4, 3, 2, 1, 0] := by decide
+example : listSlice [0, 1, 2, 3, 4] (some (-2)) none (some Int64.maxValue) = .ok [3] := by decide
+example : (PyRange.collect 5 { cur := Int64.maxValue - 1, stop := Int64.maxValue, step := 2 })
+    = ([Int64.maxValue - 1], true) := by decide
+example : strIndex "héllo".toList (-1) = .ok 'o' := by decide
+
 end Incan.Seq
